@@ -276,6 +276,11 @@ func newL2WorldOpt(r *core.Run, p *l2Profile, fixedBridge uint64, bases []string
 			gen.Validators[len(gen.Validators)-1].OperatorAddress = strings.ToUpper(v.OperatorAddress)
 		}
 	}
+	if ng < len(w.valPool) && r.Chance(1, 10) {
+		// a genesis file with a leftover validator entry of negative power: never bonded, dropped at the first block
+		gen.Validators = append(gen.Validators, mkValidator(w.valPool[len(w.valPool)-1], -1))
+		r.Probe("validators.negative-power-genesis-entry")
+	}
 	w.m.Params = gen.Params
 	w.foreignAddr = fixedBridge == 0 && r.Chance(1, 4)
 	if p.ClientID != "" || p.ForceBridgeInfo || r.Chance(2, 3) {
